@@ -1013,8 +1013,10 @@ func (m *Manager) PoolTransaction(id types.TransactionID) (types.Transaction, bo
 	m.mu.Lock()
 	defer m.mu.Unlock()
 	m.revalidatePool()
+	// indices is shared with the v2 transactions; make sure id refers to a v1
+	// transaction
 	i, ok := m.txpool.indices[id]
-	if !ok {
+	if !ok || i >= len(m.txpool.txns) || m.txpool.txns[i].ID() != id {
 		return types.Transaction{}, false
 	}
 	return m.txpool.txns[i], ok
@@ -1035,8 +1037,10 @@ func (m *Manager) V2PoolTransaction(id types.TransactionID) (types.V2Transaction
 	m.mu.Lock()
 	defer m.mu.Unlock()
 	m.revalidatePool()
+	// indices is shared with the v1 transactions; make sure id refers to a v2
+	// transaction
 	i, ok := m.txpool.indices[id]
-	if !ok {
+	if !ok || i >= len(m.txpool.v2txns) || m.txpool.v2txns[i].ID() != id {
 		return types.V2Transaction{}, false
 	}
 	return m.txpool.v2txns[i].DeepCopy(), ok
